@@ -90,3 +90,9 @@ func freeze(c *Case, ri *RunInfo) *Case {
 	}
 	return &fc
 }
+
+// Indexed properties enumerate a fixed grid of cases at the low run indices before
+// sampling by seed.
+type Indexed interface {
+	GenAt(index int, seed uint64, tier string) *Case
+}
